@@ -288,12 +288,13 @@ def handleMapper : SHandler MState := fun _cfg op a impl st =>
           match cleanUpRange k st.rIdx s0 p4 page frame with
           | (.ok (), s) => (["ok"], s)
           | (.panic, s) => (["panic"], s)
-      let changes := netChanges pre s1.log
-      let mm' := applyWrites st.mm s1.log
+      let evs := s1.events
+      let changes := netChanges pre evs
+      let mm' := applyWrites st.mm evs
       let post : St := { mem := fun f i => (mm'.get? (f, i)).getD (st.dflt f i), allocs := [], log := [] }
-      let dl := deallocsOf s1.log
+      let dl := deallocsOf evs
       let model : List String :=
-        ["R"] ++ resToks ++ ["A", toString (countAllocs s1.log)] ++
+        ["R"] ++ resToks ++ ["A", toString (countAllocs evs)] ++
         ["D", toString dl.length] ++ dl.map (fun f => toString f.toNat) ++
         fmtChanges changes ++
         ["P", toString nprobe] ++ probes.flatMap (fun va => probeToks k post p4 va)
